@@ -25,13 +25,30 @@ What is proved here is the client's half of the agreement, on the model of `Clie
   `current_event_accepted_iff`, `current_finished_accepted_iff` — what the client requires of the messages
   that carry no serial, in terms of its channel-end and listener state.
 
+The composed system (`Model/System.lean`: the broker model, one client model per connection, two
+order-preserving queues per connection, EVERY interleaving of "a client sends", "the broker handles the oldest
+request of a connection", "any other broker event", "a client handles its oldest message", "a client goes
+away"), for the replies that carry a checked serial:
+
+* `replies_carry_open_serials` — in every reachable state, every serial reply that is on its way to a client
+  names a serial that is in the client's map of that kind (16 kinds; `queryIntrospectionReply` is answered
+  later and is not covered). Rests on `step_msg_reply` / `step_other_no_reply` (Lemmas/Broker/Replies.lean):
+  one turn of the broker answers a request at most once, to the requester, under the request's kind and
+  serial, and emits no serial reply otherwise — proved for all 35 handlers, connection clean-up and the
+  deferred-work loop; and on the invariant `SysInv` (Lemmas/Client/Agreement.lean).
+* `broker_replies_never_refused` — hence in no interleaving is a reply of the 11 plain kinds refused.
+  The only assumption about the clients is `freshSerial` (a request does not reuse a serial that is still
+  open — what `SerialMap::insert` guarantees); the driver checks it on every `cs` line of every trace of the
+  real client (`reused-serial`).
+
 Partial (see DESIGN.md): that the *broker* emits the serial-less messages only in those client states is the
-composed-system invariant; it is not a theorem here. It is checked by the runs of `harness/src/bin/sys.rs`
+remaining part of the composed-system invariant; it is not a theorem here. It is checked by the runs of `harness/src/bin/sys.rs`
 (real broker, 2-4 real clients, PRNG-chosen schedule, FIFO sizes 1..16 and unbounded), whose transport traces
 are replayed through this model. Lost wake-ups, fairness of `select` and back-pressure are runtime behaviour
 no theorem about this model can exhibit; the same runs check them (quiescence implies completion).
 -/
 import Aldrin.Lemmas.Client.Serial
+import Aldrin.Lemmas.Client.Agreement
 
 namespace Aldrin.Client
 open Aldrin.Broker
@@ -192,6 +209,44 @@ theorem notifications_always_accepted (s : CSt) :
     (∀ c e, onRecv s (.subscribeEvent c e) = .ok s) ∧ (∀ c e, onRecv s (.unsubscribeEvent c e) = .ok s) ∧
     (∀ ev, onRecv s (.emitBusEvent none ev) = .ok s) := by
   simp [onRecv]
+
+/-! ### the composed system -/
+
+open Aldrin.System in
+/-- In every interleaving of the composed system, a serial reply that is on its way to a client names a serial
+the client has in its map of that kind. -/
+theorem replies_carry_open_serials (es : List SysEv) (s : Sys) (hr : sysRun {} es = some s)
+    (c : ConnId) (l : Link) (hl : s.links c = some l) (m : Rsp) (hm : m ∈ l.down)
+    (k : SKind) (n : Nat) (hk : strictKey m = some (k, n)) : n ∈ pendingOf l.mon k :=
+  head_is_pending (sysRun_inv es {} s hr SysInv_init) hl hm hk
+
+theorem plainReply_strict {m : Rsp} (hp : plainReply m = true) : ∃ k n, strictKey m = some (k, n) := by
+  cases m <;> simp only [plainReply, Bool.false_eq_true] at hp <;> exact ⟨_, _, rfl⟩
+
+open Aldrin.System in
+/-- In every interleaving of the composed system, the next message of a client is not a refused plain reply. -/
+theorem broker_replies_never_refused (es : List SysEv) (s : Sys) (hr : sysRun {} es = some s)
+    (c : ConnId) (l : Link) (hl : s.links c = some l) (m : Rsp) (rest : List Rsp) (hd : l.down = m :: rest)
+    (hp : plainReply m = true) : onRecv l.mon m ≠ .unexpected := by
+  obtain ⟨k, n, hk⟩ := plainReply_strict hp
+  have hx := replies_carry_open_serials es s hr c l hl m (by simp [hd]) k n hk
+  exact known_serial_not_refused l.mon m k n hp (strictKey_kind hk).2 hx
+
+namespace SystemExample
+open Aldrin.System
+
+/-- two clients, interleaved; client 1 has two requests on their way before the broker handles any -/
+def hist : List SysEv :=
+  [.attach 1 14, .brokerEvent (.newConn 1 14), .attach 2 14, .brokerEvent (.newConn 2 14),
+   .clientSends 1 (.sync 7), .clientSends 1 (.createChannel 8 .sender 0), .clientSends 2 (.sync 7),
+   .brokerHandles 1, .brokerHandles 2, .brokerHandles 1]
+
+example : (sysRun {} hist).bind (fun s => (s.links 1).map (·.down)) = some [.syncReply 7, .createChannelReply 8 0] := by decide
+example : (sysRun {} (hist ++ [.clientHandles 1, .clientHandles 1, .clientHandles 2])).isSome = true := by decide
+/-- the assumption is needed: a second `sync 7` while the first is open cannot be sent -/
+example : (sysRun {} (hist ++ [.clientSends 1 (.sync 7)])).isSome = false := by decide
+
+end SystemExample
 
 /-! ### non-vacuity: a history in which a channel is created, claimed by the peer, used and closed -/
 
